@@ -197,7 +197,7 @@ def write_evidence(ctx, explanation, extra=None, error=None):
         "violations": nviol,
     }
     p = os.path.join(VERIF, "evidence", "%s.json" % ctx.prop)
-    tmp = p + ".tmp"
+    tmp = p + ".tmp.%d" % os.getpid()          # checks may run side by side (campaign workers)
     with open(tmp, "w") as fh:
         json.dump(ev, fh, indent=1)
     os.replace(tmp, p)
